@@ -308,12 +308,59 @@ def cleanup(d):
     os.rmdir(d)
 
 
+SMALL_FLAGS = ['-DOSMIUM_VERIF_PBF_INITIAL_BUFFER_SIZE=%d', '-DOSMIUM_VERIF_PARSER_INITIAL_BUFFER_SIZE=%d']
+_small_bins = {}
+
+
+def small_twin(ctx, scratch):
+    """The same harness compiled with tiny initial decoder/parser buffers (hook of /repo): the buffers
+    grow (or nest) at every builder call of small objects.  Buffer capacity is unobservable (C04
+    capacity_independent), so every read op must print exactly what the normal build prints; a raw
+    pointer or reference kept across a growth point shows up as a difference (seeds C01-5, C03-1)."""
+    if 'bins' not in _small_bins:
+        bins = []
+        for size in (64, 200):
+            b, err = vlib.build_cpp('pbf_small%d' % size, ['pbf.cpp'],
+                                    flags=['-DOSMIUM_WITH_LZ4', '-fno-access-control'] + [f % size for f in SMALL_FLAGS])
+            if b is None:
+                ctx.violation('harness-build:pbf-small', 'pbf harness (small initial buffers) does not compile: ' + err[-600:],
+                              {'kind': 'harness-build', 'stderr': err}, found_input=False)
+                bins = []
+                break
+            import shutil
+            local = os.path.join(scratch, 'pbf-harness-small%d' % size)
+            shutil.copy2(b, local)
+            bins.append((size, local))
+        _small_bins['bins'] = bins
+    return _small_bins['bins']
+
+
 def run_impl(ctx, hbin, scratch, ops):
     rc, out, se = ctx.run_lines([hbin, scratch], '\n'.join(ops) + '\n')
     if rc != 0 or len(out) != len(ops):
         ctx.violation('harness-crash:pbf', 'pbf harness exited %d after %d/%d lines: %s' % (rc, len(out), len(ops), se[-400:]),
                       {'kind': 'harness-crash', 'stderr': se[-2000:], 'op': ops[len(out)][:2000] if len(out) < len(ops) else ''}, found_input=False)
         return None
+    # reading ops again with tiny initial buffers: same answers
+    ridx = [i for i, o in enumerate(ops) if o.split(' ', 1)[0] in ('dec', 'rd', 'rt')]
+    if ridx and len(ridx) <= 6000:
+        for size, sbin in small_twin(ctx, scratch):
+            rops = [ops[i] for i in ridx]
+            rc2, out2, se2 = ctx.run_lines([sbin, scratch], '\n'.join(rops) + '\n')
+            ctx.count('small-buffer-twin:%d' % size, len(rops))
+            if rc2 != 0 or len(out2) != len(rops):
+                k = min(len(out2), len(rops) - 1)
+                ctx.violation('buffer-size-dependent:pbf-crash', 'pbf harness built with %d-byte initial decoder buffers exited %d at op `%s`: %s'
+                              % (size, rc2, rops[k][:300], se2[-400:]),
+                              {'kind': 'counterexample', 'op': rops[k][:20000], 'stderr': se2[-2000:]})
+                continue
+            for i, a in zip(ridx, out2):
+                if a != out[i]:
+                    ctx.violation('buffer-size-dependent:pbf', 'the result of reading depends on the initial size of the decoder buffer (%d bytes vs default): `%s` -> `%s` but `%s`'
+                                  % (size, ops[i][:200], a[:300], out[i][:300]),
+                                  {'kind': 'counterexample', 'op': ops[i][:20000], 'small': a[:4000], 'default': out[i][:4000],
+                                   'replay': 'feed the op to the pbf harness built with -DOSMIUM_VERIF_PBF_INITIAL_BUFFER_SIZE=%d' % size})
+                    break
     return out
 
 
